@@ -107,6 +107,34 @@ fn lookup(f: &[&str]) -> Option<String> {
 	Some(format!("{}\t{}", out.trim_end(), all_same as u8))
 }
 
+// xcmp <fam> <a> <b>: every provided cross-type == and partial_cmp between the four views (X, XBuf, XRef, XRefBuf) of two
+// absolute values; first field: the same-type result on references, then 16 == flags and 16 partial_cmp letters
+macro_rules! xcmp_fam {
+	($m:ident, $f:expr) => {{
+		let f: &[&str] = $f;
+		let ab = unhex(f[2]); let bb = unhex(f[3]);
+		let (av, aref, abuf, arbuf) = match ($m::abs(&ab), $m::rref(&ab), $m::absbuf(&ab), $m::refbuf(&ab)) { (Some(a), Some(b_), Some(c), Some(d)) => (a, b_, c, d), _ => return Some("ERR-a".into()) };
+		let (bv, bref, bbuf, brbuf) = match ($m::abs(&bb), $m::rref(&bb), $m::absbuf(&bb), $m::refbuf(&bb)) { (Some(a), Some(b_), Some(c), Some(d)) => (a, b_, c, d), _ => return Some("ERR-b".into()) };
+		let base_e = b(g(|| *aref == *bref)); let base_c = o(g(|| aref.partial_cmp(bref)).flatten());
+		let es: String = [
+			g(|| *av == bv), g(|| *av == bbuf), g(|| *av == *bref), g(|| *av == bref), g(|| *av == brbuf),
+			g(|| abuf == *bref), g(|| abuf == bref), g(|| abuf == brbuf),
+			g(|| *aref == bref), g(|| *aref == brbuf), g(|| *aref == *bv), g(|| *aref == bv), g(|| *aref == bbuf),
+			g(|| arbuf == *bv), g(|| arbuf == bv), g(|| arbuf == bbuf),
+		].into_iter().map(b).collect();
+		let cs: String = [
+			g(|| (*av).partial_cmp(&bv)), g(|| (*av).partial_cmp(&bbuf)), g(|| (*av).partial_cmp(bref)), g(|| (*av).partial_cmp(&bref)), g(|| (*av).partial_cmp(&brbuf)),
+			g(|| abuf.partial_cmp(bref)), g(|| abuf.partial_cmp(&bref)), g(|| abuf.partial_cmp(&brbuf)),
+			g(|| (*aref).partial_cmp(&bref)), g(|| (*aref).partial_cmp(&brbuf)), g(|| (*aref).partial_cmp(bv)), g(|| (*aref).partial_cmp(&bv)), g(|| (*aref).partial_cmp(&bbuf)),
+			g(|| arbuf.partial_cmp(bv)), g(|| arbuf.partial_cmp(&bv)), g(|| arbuf.partial_cmp(&bbuf)),
+		].into_iter().map(|x| o(x.flatten())).collect();
+		format!("{}{}\t{}\t{}", base_e, base_c, es, cs)
+	}};
+}
+fn xcmp(f: &[&str]) -> Option<String> {
+	Some(match f[1] { "uri" => xcmp_fam!(u, f), "iri" => xcmp_fam!(i, f), _ => panic!("fam") })
+}
+
 // pct <fam> <comp> <hex>: the percent-decoded view of a component
 macro_rules! pct_view {
 	($v:expr) => {{
@@ -267,6 +295,7 @@ pub fn run(f: &[&str]) -> Option<String> {
 			_ => panic!("kind"),
 		},
 		"lookup" => return lookup(f),
+		"xcmp" => return xcmp(f),
 		"pct" => {
 			let inp = unhex(f[3]);
 			macro_rules! go { ($m:ident, $c:ident) => { match $m::$c(&inp) { Some(v) => format!("{}\t~", pct_view!(v)), None => "ERR".to_string() } } }
